@@ -403,6 +403,45 @@ theorem demoRun_fair : WeakFair (sys 3 false) (fun _ a => goroutineStep a) demoR
 example : ∃ j, 4 ≤ j ∧ (demoRun.st j).closed = true ∧ ((demoRun.st j).pc = .exited ∨ (demoRun.st j).pc = .none) :=
   closed_promptly_after_cancel 3 false demoRun demoRun_fair 4 (by decide)
 
+/-! ### Timestamps: whatever the ticker delivers (finding F7)
+
+`BB.Attempt` abstracts timestamps to tick numbers.  The real `time.Ticker` hands out time values that are NOT guaranteed to be
+non-decreasing when ticks are overdue and coalesced (observed at rates ≤ 1µs).  The code therefore keeps the last value it sent
+and never forwards an earlier one; as a function on the raw stamps: -/
+
+/-- the values LinearAttempt puts into its channel, given the initial `time.Now()` and the raw stamps of the ticks it forwards -/
+def forwarded (first : Nat) : List Nat → List Nat
+  | [] => []
+  | t :: ts => (if t < first then first else t) :: forwarded (if t < first then first else t) ts
+
+def NonDecreasing : List Nat → Prop
+  | [] => True
+  | [_] => True
+  | a :: b :: rest => a ≤ b ∧ NonDecreasing (b :: rest)
+
+/-- for EVERY sequence of raw stamps the yielded values are non-decreasing, starting from the first value -/
+theorem forwarded_stamps_nondecreasing (first : Nat) (raw : List Nat) : NonDecreasing (first :: forwarded first raw) := by
+  induction raw generalizing first with
+  | nil => trivial
+  | cons t ts ih =>
+    simp only [forwarded]
+    refine ⟨?_, ih _⟩
+    split <;> omega
+
+/-- a well-behaved ticker is forwarded unchanged: the guard only acts on stamps that go backwards -/
+theorem forwarded_id_of_nondecreasing (first : Nat) (raw : List Nat) (h : NonDecreasing (first :: raw)) : forwarded first raw = raw := by
+  induction raw generalizing first with
+  | nil => rfl
+  | cons t ts ih =>
+    have h1 : first ≤ t := by cases ts <;> simp [NonDecreasing] at h <;> omega
+    have h2 : NonDecreasing (t :: ts) := by cases ts <;> simp_all [NonDecreasing]
+    simp only [forwarded, show ¬ t < first by omega, ↓reduceIte]
+    rw [ih t h2]
+
+/-- without the guard the property is false: raw stamps 5, 3 after a first value 1 would be yielded as they are -/
+example : ¬ NonDecreasing (1 :: [5, 3]) := by simp [NonDecreasing]
+example : forwarded 1 [5, 3] = [5, 5] := by decide
+
 /-! non-vacuity: count 3, slow receiver (one tick is dropped), cancellation between the re-check and the send -/
 example : ((sys 3 false).run (start 3 false) [.tick, .recheck, .trysend, .recv, .tick, .recheck, .cancel, .trysend, .ctxdone]).map
     (fun s => (s.sent, s.got, s.closed, s.sentAfterCancel)) = some ([0, 2], [0], true, 1) := by decide
